@@ -49,9 +49,22 @@ func c08R4(c *Ctx) {
 	eng.Trusted = []string{").TwoThirdsMajority(", "gemmill/blockchain.(*BlockStore).Load", "gemmill/blockchain.(*BlockStore).GetReader("}
 	fs, n := eng.CheckPanics(c.NR)
 	c.R.Ob(rule, "panics-examined", n > 20, "-", "", fmt.Sprintf("%d explicit panic sites examined in scope", n))
+	// distinct panics per function: two sites raising the same call with the same message (a condition split
+	// into two ifs) are one reviewed panic
 	perFn := map[string]int{}
+	seenMsg := map[string]bool{}
 	for _, f := range fs {
-		perFn[core.Short(fname(f.Fn))]++
+		msg := f.Ins.String()
+		if ci, ok := f.Ins.(ssa.CallInstruction); ok {
+			msg = cfgxCallee(ci) + "(" + callArg(ci, 0) + ")"
+		} else if p, ok := f.Ins.(*ssa.Panic); ok {
+			msg = "panic(" + exprOf(p.X) + ")"
+		}
+		k := core.Short(fname(f.Fn)) + "|" + msg
+		if !seenMsg[k] {
+			seenMsg[k] = true
+			perFn[core.Short(fname(f.Fn))]++
+		}
 	}
 	for _, f := range fs {
 		fnm := core.Short(fname(f.Fn))
@@ -72,7 +85,7 @@ type panicReview struct {
 var c08PanicReviewed = map[string]panicReview{
 	"gemmill/blockchain.(*BlockStore).SaveBlock":                     {2, "contiguity / completeness sanity checks: fast-sync blocks are filed under requesters[block.Height] and peeked at pool.height = store height+1, consensus blocks passed ValidateBlock (Height == last+1) and their part set is complete before finalizeCommit; not selectable by a peer"},
 	"gemmill/consensus/pbft.(*ConsensusState).enterPrecommit":        {1, "`+2/3 prevoted for an invalid block`: reached only when a +2/3 prevote majority names a block that fails ValidateBlock, i.e. more than 2/3 Byzantine voting power, outside the fault model"},
-	"gemmill/consensus/pbft.(*ConsensusState).reconstructLastCommit": {1, "iterates the node's own stored seen-commit (LoadSeenCommit), written by this node after +2/3 verification"},
+	"gemmill/consensus/pbft.(*ConsensusState).reconstructLastCommit": {2, "both panics (a stored precommit does not add; the stored commit lacks +2/3) concern the node's own stored seen-commit (LoadSeenCommit), written by this node after +2/3 verification"},
 	"gemmill/types.voteToStep":                                       {1, "called only from PrivValidator.SignVote on votes this node built itself (the type is a constant at every signVote call site)"},
 	"gemmill/consensus/pbft.(*ConsensusState).addVote":               {1, "`Unexpected vote type`: HeightVoteSet.AddVote returns added=false for an invalid type (VoteSet lookup is nil), and the switch is under `if added`"},
 }
